@@ -119,6 +119,16 @@ def shape_facts(repo, vals, pre):
             except Exception:
                 off = None
         facts["offs%dUnsigned" % w] = off
+    # guard of libxmp_mixer_prepare: `if (s->ticksize < 0 || s->ticksize > (CAP)) s->ticksize = VALUE;`
+    prep = function_body(pre, "libxmp_mixer_prepare") or ""
+    cap = capval = None
+    m = re.search(r"s->ticksize\s*>\s*\(?([^{};]+?)\)?\s*\)\s*\{?\s*s->ticksize\s*=\s*([^;]+);", prep, re.S)
+    if m:
+        try:
+            cap, capval = c_int_eval(m.group(1)), c_int_eval(m.group(2))
+        except Exception:
+            cap = capval = None
+    facts["ticksizeCapGuard"], facts["ticksizeCapAssigned"] = cap, capval
     ctl = strip_comments(open(os.path.join(repo, "src", "control.c")).read())
     lo = hi = None
     m = re.search(r"case\s+XMP_PLAYER_AMP\s*:\s*if\s*\(\s*val\s*>=\s*(-?\w+)\s*&&\s*val\s*<=\s*(-?\w+)\s*\)\s*\{\s*s->amplify\s*=\s*val\s*;", ctl)
@@ -159,6 +169,11 @@ def generate(repo=None):
             out.append("/-- `%s` -/\ndef %s : Nat := %d" % (cexpr, name, v))
         else:
             out.append("/-- `%s` -/\ndef %s : Int := %s" % (cexpr, name, lean_int(v)))
+    # the tick-size cap used by the model: the recognised guard, else the value the tree had when the
+    # model was last updated (the `prep` correspondence then carries the tie alone)
+    cap_used = facts["ticksizeCapGuard"] if facts["ticksizeCapGuard"] is not None and facts["ticksizeCapGuard"] >= 0 else vals["maxFramesize"] // 4
+    vals["ticksizeCap"] = cap_used
+    out.append("/-- largest tick size `libxmp_mixer_prepare` lets through (its guard expression, evaluated) -/\ndef ticksizeCap : Nat := %d" % cap_used)
     out.append("")
     doc = {
         "shift8Amp0": "`int shift = …` of downmix_int_8bit evaluated at amp = 0",
@@ -166,9 +181,12 @@ def generate(repo=None):
         "shift16Amp1": "… at amp = 1",
         "offs8Unsigned": "offset passed to downmix_int_8bit when XMP_FORMAT_UNSIGNED is set (0 otherwise)",
         "offs16Unsigned": "offset passed to downmix_int_16bit when XMP_FORMAT_UNSIGNED is set (0 otherwise)",
+        "ticksizeCapGuard": "bound in the guard `s->ticksize > (…)` of libxmp_mixer_prepare",
+        "ticksizeCapAssigned": "value assigned to s->ticksize when the guard fires",
         "ampMin": "lowest value xmp_set_player(XMP_PLAYER_AMP) accepts", "ampMax": "highest value it accepts",
     }
-    for k in ("shift8Amp0", "shift8Amp1", "shift16Amp0", "shift16Amp1", "offs8Unsigned", "offs16Unsigned", "ampMin", "ampMax"):
+    for k in ("shift8Amp0", "shift8Amp1", "shift16Amp0", "shift16Amp1", "offs8Unsigned", "offs16Unsigned", "ampMin", "ampMax",
+              "ticksizeCapGuard", "ticksizeCapAssigned"):
         v = facts[k]
         out.append("/-- %s (recognised from the code shape; `none` = not recognised) -/\ndef %s : Option Int := %s" % (
             doc[k], k, "none" if v is None else "some %s" % lean_int(v)))
